@@ -92,6 +92,16 @@ def gen_cases(ctx):
             rec = gen_record(rng, n, rng.choice([2, 3, 4]), rng.choice([1, 2]))
             cases.append({"rec": rec, "ops": [[rng.choice([">>", ">>", "<<"]), k]]})
     ctx.exhaustive = True  # every length 1..maxn x every k in [-2n, 2n]
+    # periodic words: a rotation by a multiple of the period leaves the letters unchanged
+    # but must still move features and per-letter annotations
+    for _ in range(60 if ctx.quick else 600):
+        unit = "".join(rng.choice(recutil.ALPHA30) for _ in range(rng.choice([1, 2, 3, 4])))
+        reps = rng.randrange(2, 6)
+        n = len(unit) * reps
+        rec = gen_record(rng, n, rng.choice([1, 2, 3]), rng.choice([1, 2]))
+        rec["seq"] = unit * reps
+        k = len(unit) * rng.randrange(1, reps) + rng.choice([0, 0, n, -n])
+        cases.append({"rec": rec, "ops": [[rng.choice([">>", "<<"]), k]] + ([[">>", len(unit)]] if rng.random() < 0.3 else [])})
     nrand = 250 if ctx.quick else 2500
     for _ in range(nrand):
         n = rng.randrange(1, 61)
@@ -197,6 +207,8 @@ def run(ctx):
         n = len(c["rec"]["seq"])
         K = sum(k if op == ">>" else -k for op, k in c["ops"])
         ctx.count("len<=12" if n <= 12 else "len>12")
+        if n > 1 and any(c["rec"]["seq"] == c["rec"]["seq"][j:] + c["rec"]["seq"][:j] for j in range(1, n)):
+            ctx.count("periodic-word")
         for f in c["rec"]["features"]:
             ctx.count("shape:" + f["shape"])
         if K % n and (c["rec"]["features"] or c["rec"]["tracks"]):
